@@ -1,5 +1,6 @@
 import Sebuf.Schema
 import Sebuf.Validate
+import Sebuf.Route
 /-!
 `Impl`: a typing discipline for the templates — which accepted definitions make the emitted Go
 fail to compile or vet, and the emitted TypeScript fail to load. Each predicate names one
@@ -68,8 +69,8 @@ def queryKindCompiles (f : Field) : Bool :=
 def clientDefects (rq : Request) (f : File) : List String :=
   (f.messages.flatMap (codecDefects · false)) ++
   (f.services.flatMap fun s =>
-    -- typed header helpers: one function per declared header, named from the header name
-    (if dupIn ((s.headers ++ s.methods.flatMap (·.headers)).map headerNameToFuncName) then ["header_helper_redeclared"] else []) ++
+    -- typed header helpers are named from the header name and emitted once per name since /repo
+    -- 50d5457 (`clientHelperNames`); before, once per declaration (`headerHelperDefectsBeforeFix`)
     (s.methods.flatMap fun m =>
       let input := (rq.findMessage m.input).getD default
       let v := if m.hasConfig then verbOfNum m.verbNum else "POST".toList
@@ -77,6 +78,20 @@ def clientDefects (rq : Request) (f : File) : List String :=
       -- (`clientPathAccessor`); before, `req.<snakeToUpperCamel(var)>` (`clientIdentDefectsBeforeFix`)
       -- `req.F != <zero literal>` per query field, for GET/DELETE
       (if isQueryVerb v && input.fields.any (fun fl => fl.query.isSome && !(queryKindCompiles fl)) then ["client_query_field_kind"] else [])))
+
+/-- the call-option helper functions the Go client emits for a service (the `emitted` set of
+`clientgen.generateHeaderHelperOptions`): one per distinct function name, in order of first declaration (service headers, then method headers in method order). -/
+def clientHelperNames (s : Service) : List Str :=
+  uniqueFirst ((s.headers ++ s.methods.flatMap (·.headers)).map headerNameToFuncName)
+
+/-- before /repo 50d5457: one helper per DECLARATION. -/
+def clientHelperNamesBeforeFix (s : Service) : List Str :=
+  (s.headers ++ s.methods.flatMap (·.headers)).map headerNameToFuncName
+
+/-- regression witness for the repaired finding `go:header_helper_redeclared`. -/
+def headerHelperDefectsBeforeFix (rq : Request) : List String :=
+  (generated rq).flatMap fun f => f.services.flatMap fun s =>
+    if dupIn (clientHelperNamesBeforeFix s) then ["header_helper_redeclared"] else []
 
 /-- the Go expression the emitted client reads a path variable from (`clientgen.pathParamAccessor`):
 the field's protoc-gen-go name, through the getter when the field is proto3 `optional` (a pointer). -/
